@@ -89,6 +89,10 @@ type Conn struct {
 	WriteErr     error // next Write fails with this error ...
 	WriteErrN    int   // ... after accepting this many bytes
 	OnWrite      func(c *Conn, data []byte)
+	OnWriteBegin func(c *Conn)        // called when Write is entered, before it is scheduled
+	OnReadBegin  func(c *Conn)        // called when Read is entered
+	OnReadEnd    func(c *Conn)        // called when Read returns
+	WriteDelay   func() time.Duration // simulated time a Write takes (slow or back-pressured peer); nil = none
 	OnClose      func(c *Conn)
 	NoYieldWrite bool
 	EOFWithData  bool // the read that drains the last queued byte before EOF also reports io.EOF
@@ -243,6 +247,12 @@ func (c *Conn) availLocked(now time.Time) (n int, headErr bool, next time.Time) 
 
 func (c *Conn) Read(p []byte) (int, error) {
 	s := c.sim
+	if c.OnReadBegin != nil {
+		c.OnReadBegin(c)
+	}
+	if c.OnReadEnd != nil {
+		defer c.OnReadEnd(c)
+	}
 	deadline := c.rdl
 	if c.SerialMode {
 		deadline = time.Now().Add(c.PortTimeout)
@@ -380,9 +390,25 @@ func bucket(n int) int {
 
 func (c *Conn) Write(p []byte) (int, error) {
 	s := c.sim
+	if c.OnWriteBegin != nil {
+		c.OnWriteBegin(c)
+	}
 	if !c.NoYieldWrite {
 		if s.ParkL("wr:"+c.Name, "write", c.locker(), always) == Drained {
 			return 0, net.ErrClosed
+		}
+	}
+	if c.WriteDelay != nil {
+		if d := c.WriteDelay(); d > 0 {
+			at := time.Now().Add(d)
+			if s.ParkL("wr:"+c.Name, "write-slow", c.locker(), func(now time.Time) (bool, Reason, time.Time) {
+				if !now.Before(at) || c.closed {
+					return true, Ready, time.Time{}
+				}
+				return false, Ready, at
+			}) == Drained {
+				return 0, net.ErrClosed
+			}
 		}
 	}
 	c.lock()
